@@ -106,6 +106,26 @@ def run(tier):
             suite.identity('swap.evaluated%s%s' % (dx, dy), entries(mat(lhs)),
                            entries(mat(A @ B >> Tensor.swap(Dim(*dx), Dim(*dy)))), extra=free(A, B),
                            functions=['tensor.Functor.__call__', fq + 'swap'], what='the evaluated swap is Tensor.swap of the images')
+    # cups, caps and the snake equations through diagram evaluation (the cups and caps a tensor functor produces), for
+    # object images of one and of several wires with different dimensions
+    with suite.guard('snakes through evaluation', ['tensor.Functor.__call__']):
+        x_ = _r.Ty('x')
+        bf = _r.Box('f', x_, x_)
+        for dx in ((2,), (2, 3), (3, 2, 2)):
+            A = sym_tensor(dx, dx, 'a')
+            F = _t.Functor({x_: Dim(*dx)}, {bf: A.array})
+            D = Dim(*dx)
+            for nm, d, want in (
+                    ('Cap(x, x.l)', _r.Cap(x_, x_.l), Tensor.caps(D, D.l)), ('Cap(x.r, x)', _r.Cap(x_.r, x_), Tensor.caps(D.r, D)),
+                    ('Cup(x, x.r)', _r.Cup(x_, x_.r), Tensor.cups(D, D.r)), ('Cup(x.l, x)', _r.Cup(x_.l, x_), Tensor.cups(D.l, D)),
+                    ('left snake', _r.Cap(x_, x_.l) @ _r.Id(x_) >> _r.Id(x_) @ _r.Cup(x_.l, x_), Tensor.id(D)),
+                    ('right snake', _r.Id(x_) @ _r.Cap(x_.r, x_) >> _r.Cup(x_, x_.r) @ _r.Id(x_), Tensor.id(D)),
+                    ('f on a left snake', _r.Cap(x_, x_.l) @ bf >> _r.Id(x_) @ _r.Cup(x_.l, x_), A)):
+                suite.fact('snake.evaluated.type[%s]%s' % (nm, dx), (F(d).dom, F(d).cod) == (want.dom, want.cod),
+                           functions=['tensor.Functor.__call__'], what='the evaluated cup / cap / snake has the type of its definition')
+                suite.identity('snake.evaluated[%s]%s' % (nm, dx), entries(mat(F(d))), entries(mat(want)), extra=free(A),
+                               functions=['tensor.Functor.__call__', fq + 'cups', fq + 'caps'],
+                               what='cups and caps produced by a tensor functor are Tensor.cups / caps of the images; both snakes evaluate to the identity')
     # wires of dimension one: a box whose image is a scalar although its domain and codomain have different numbers of wires
     # (m : s @ s -> s, cups and caps on s) must not disturb the boxes to its right -- tensor is the Kronecker product and
     # composition the matrix product also around the empty type
